@@ -16,7 +16,8 @@ EXPLANATION = (
     "propagated (`?`, returned, or converted and propagated) - never dropped, .ok()'d or only printed; (E2) "
     "every path of finalize to Ok passes flush_buffers and then close, and close/serialize flush the writer "
     "after the footer; (E3) the CLI propagates push/drain/sync_and_flush/finalize and main returns the Result; "
-    "(E4) every worker JoinHandle is joined and its inner Result propagated.  No I/O error is injected.")
+    "(E4) every worker JoinHandle is joined and its inner Result propagated.  A combinator running a closure that writes "
+    "is a write site, and a result overwritten before it was inspected is dropped.  No I/O error is injected.")
 UNDECIDED = "errors reported by the operating system only at close(2) of the file descriptor (not surfaced by std)"
 
 WRITE_PRIMS = re.compile(r"std::io::Write>::(write_all|flush|write)$|std::io::Write::(write_all|flush|write)$|"
